@@ -27,10 +27,14 @@ pub uninterp spec fn slice_err() -> std::array::TryFromSliceError;
 pub open spec fn arr4_try_from(v: &[u8]) -> std::result::Result<[u8; 4], std::array::TryFromSliceError> {
     if v@.len() == 4 { Ok([v@[0], v@[1], v@[2], v@[3]]) } else { Err(slice_err()) }
 }
-pub axiom fn axiom_arr4_try_into_obeys()
-    ensures <&[u8] as vstd::std_specs::convert::TryIntoSpec<[u8; 4]>>::obeys_try_into_spec();
-pub broadcast axiom fn axiom_arr4_try_into(v: &[u8])
-    ensures (#[trigger] <&[u8] as vstd::std_specs::convert::TryIntoSpec<[u8; 4]>>::try_into_spec(v)) == arr4_try_from(v);
+#[verifier::external_body]
+pub proof fn axiom_arr4_try_into_obeys()
+    ensures <&[u8] as vstd::std_specs::convert::TryIntoSpec<[u8; 4]>>::obeys_try_into_spec()
+{}
+#[verifier::external_body]
+pub broadcast proof fn axiom_arr4_try_into(v: &[u8])
+    ensures (#[trigger] <&[u8] as vstd::std_specs::convert::TryIntoSpec<[u8; 4]>>::try_into_spec(v)) == arr4_try_from(v)
+{}
 
 // ---- bytes::BytesMut as a growable byte string with view Seq<u8> ----
 // Slicing (`buf[a..b]`, through Deref<Target = [u8]>) panics when out of range -> index_req.
@@ -41,7 +45,8 @@ impl BytesMut {
     #[verifier::external_body]
     pub fn new() -> (r: BytesMut) ensures r@ == Seq::<u8>::empty() { unimplemented!() }
     #[verifier::external_body]
-    pub fn len(&self) -> (r: usize) ensures r == self@.len() { unimplemented!() }
+    /// a BytesMut (like every Rust allocation) never holds more than isize::MAX bytes
+    pub fn len(&self) -> (r: usize) ensures r == self@.len(), r <= isize::MAX as usize { unimplemented!() }
     /// bytes::Buf::advance: panics if cnt > remaining
     #[verifier::external_body]
     pub fn advance(&mut self, cnt: usize)
